@@ -10,7 +10,7 @@ import subprocess
 import sys
 import time
 
-WT = "/tmp/wt_eval"
+WT = os.environ.get("SEEDRUN_WT", "/tmp/wt_eval")
 VERIF = os.path.dirname(os.path.dirname(os.path.abspath(__file__)))
 
 
